@@ -1,8 +1,11 @@
 package vaxis
 
 import (
+	"bytes"
+	"fmt"
 	"image"
 	"image/color"
+	"strings"
 
 	"git.sr.ht/~rockorager/vaxis/zzverif"
 )
@@ -22,7 +25,7 @@ func verifCeilDiv(a, b int) int {
 	return q
 }
 
-var verifCellGeoms = [][2]int{{1, 2}, {2, 4}, {1, 1}, {3, 5}}
+var verifCellGeoms = [][2]int{{1, 2}, {2, 4}, {1, 1}, {3, 5}, {7, 15}}
 
 // VerifC20Resize: the dimension arithmetic of resizeImage. Image pixel size free (1..maxpix
 // in each dimension), box and cell pixel geometry enumerated: the resulting size in cells
@@ -110,5 +113,100 @@ func VerifC20HalfBlock() {
 		}
 	}
 	zzverif.Assert(ok, "draw-stays-inside-window")
+	zzverif.Reach("end")
+}
+
+// VerifC20KittyCells: the cell size a kitty-protocol image reports after Resize is the pixel
+// size resizeImage produced, rounded up to whole cells in each dimension with that
+// dimension's own cell size, and fits the requested box (the PNG encoding goroutine is not
+// part of the claim and is never scheduled by the engine).
+func VerifC20KittyCells() {
+	maxpix := zzverif.Param("maxpix")
+	maxbox := zzverif.Param("maxbox")
+	wPix, hPix := 1+zzverif.Choose("wpix", maxpix), 1+zzverif.Choose("hpix", maxpix)
+	w, h := 1+zzverif.Choose("boxw", maxbox), 1+zzverif.Choose("boxh", maxbox)
+	geom := verifCellGeoms[zzverif.Choose("geom", len(verifCellGeoms))]
+	cw, ch := geom[0], geom[1]
+	vx := verifBareVaxis(2, 2)
+	vx.queue = make(chan Event, 4)
+	vx.winSize = Resize{Cols: 10, Rows: 10, XPixel: 10 * cw, YPixel: 10 * ch}
+	k := &KittyImage{vx: vx, img: verifImg{wPix, hPix}, buf: bytes.NewBuffer(nil)}
+	k.Resize(w, h)
+	gotW, gotH := k.CellSize()
+	out := resizeImage(verifImg{wPix, hPix}, w, h, cw, ch)
+	nw, nh := out.Bounds().Max.X, out.Bounds().Max.Y
+	zzverif.Assert(gotW == verifCeilDiv(nw, cw) && gotH == verifCeilDiv(nh, ch), "kitty-cell-size-is-pixel-size-rounded-up-per-dimension")
+	zzverif.Assert(gotW <= w && gotH <= h, "kitty-cell-size-fits-the-box")
+	zzverif.Reach("end")
+}
+
+// VerifC20Placements: image placements across `frames` frames (each: Clear, then each of two
+// kitty images absent or drawn at one of two positions, then Render or Refresh): a placement
+// is transmitted exactly when it is new or changed (or on a full refresh), never while it is
+// unchanged, and deleted exactly when it was shown and is dropped or changed (or on a full
+// refresh); what the terminal is left showing is what the application drew.
+func VerifC20Placements() {
+	vx, con := verifRenderVaxis(4, 3)
+	imgs := []*KittyImage{
+		{vx: vx, id: 1, w: 1, h: 1, uploaded: 1, buf: bytes.NewBuffer(nil)},
+		{vx: vx, id: 2, w: 2, h: 1, uploaded: 1, buf: bytes.NewBuffer(nil)},
+	}
+	pos := [][2]int{{0, 0}, {2, 1}}
+	type shown struct{ id, col, row int }
+	put := func(s shown) string {
+		return fmt.Sprintf("\x1B_Ga=p,i=%d,p=%d,C=1\x1B\\", s.id, uint(s.col)<<16|uint(s.row))
+	}
+	del := func(s shown) string {
+		return fmt.Sprintf("\x1B_Ga=d,d=i,i=%d,p=%d\x1B\\", s.id, uint(s.col)<<16|uint(s.row))
+	}
+	var last []shown
+	n := zzverif.Param("frames")
+	for f := 0; f < n; f++ {
+		win := vx.Window()
+		win.Clear()
+		var next []shown
+		for i, img := range imgs {
+			c := zzverif.Choose("place", 3)
+			if c == 0 {
+				continue
+			}
+			p := pos[c-1]
+			img.Draw(win.New(p[0], p[1], img.w, img.h))
+			next = append(next, shown{i + 1, p[0], p[1]})
+		}
+		refresh := f == 0 || zzverif.Bool("refresh")
+		if refresh {
+			vx.Refresh()
+		} else {
+			vx.Render()
+		}
+		out := string(con.take())
+		has := func(l []shown, s shown) bool {
+			for _, x := range l {
+				if x == s {
+					return true
+				}
+			}
+			return false
+		}
+		okPut, okDel := true, true
+		for _, id := range []int{1, 2} {
+			for _, p := range pos {
+				s := shown{id, p[0], p[1]}
+				wantPut, wantDel := 0, 0
+				if has(next, s) && (refresh || !has(last, s)) {
+					wantPut = 1
+				}
+				if has(last, s) && (refresh || !has(next, s)) {
+					wantDel = 1
+				}
+				okPut = okPut && strings.Count(out, put(s)) == wantPut
+				okDel = okDel && strings.Count(out, del(s)) == wantDel
+			}
+		}
+		zzverif.Assert(okPut, "placement-transmitted-exactly-when-new-or-changed")
+		zzverif.Assert(okDel, "placement-deleted-exactly-when-dropped-or-changed")
+		last = next
+	}
 	zzverif.Reach("end")
 }
